@@ -147,10 +147,13 @@ def fresh_for(cls, method, prof):
     return t.get((cls, method), {})
 
 
-def universe(tier, cls=None, method=None, ns_policy=None):
+def universe(tier, cls=None, method=None, ns_policy=None, profile=None):
     name = tier + ("_heavy" if (cls, method) in HEAVY else "")
     p = dict(PROFILES[name])
     p["profile"] = name
+    if profile:
+        p = dict(profile)
+        p.setdefault("profile", "shape")
     fresh = fresh_for(cls, method, p) if cls else {}
     if ns_policy:
         # colliding alphabet: case variants, a distinct name, an identifier that is illegal in EDIF
